@@ -574,7 +574,16 @@ def same(a, b):
 
 
 def oracle(case):
+    if case.get('session'):
+        from engines import C04_session
+        return C04_session.oracle(case)
     obs = L.observe(case, fresh=True)
+    return judge_call(case, obs, lambda: L.observe(case, fresh=True))
+
+
+def judge_call(case, obs, rerun):
+    """the property for ONE call: `obs` = what was observed under the taps, `rerun` = a function
+    that repeats the call with the same seed and returns its observation (None: not repeated here)"""
     exp_exc = expected_exception(case)
     feats = {'routine': case['routine'], 'bt': case.get('bt')}
     if expected_rejection(case):
@@ -593,8 +602,8 @@ def oracle(case):
         return {'what': 'the routine accepted an invalid correction request', 'observed': 'result',
                 'expected': exp_exc, 'features': feats}
     impl = obs['result']
-    again = L.observe(case, fresh=True)
-    if 'exc' in again or not same(again['result'], impl):
+    again = rerun() if rerun is not None else None
+    if again is not None and ('exc' in again or not same(again['result'], impl)):
         return {'what': 'a rerun with the same random seed does not reproduce the result',
                 'observed': 'different arrays', 'expected': 'bit-identical arrays',
                 'features': dict(feats, kind='determinism')}
